@@ -228,6 +228,12 @@ def r16_1(rep, M, rid, region=False):
         elif want == "vacancy" and not ("floor" in (src or "") and "to_scaled" in (src or "")):
             rep.violation(rid, f"get_matches path [{desc}] copy index", f"vacancy copy index comes from `{src}`, required floor of the scaled position",
                           M.where(GM, loop))
+        elif want == "vacancy" and any(isinstance(c, ast.Call) and norm(c.func).endswith("to_scaled")
+                                       and ((len(c.args) > 2 and not (isinstance(c.args[2], ast.Constant) and c.args[2].value is False))
+                                            or any(k.arg == "wrap" and not (isinstance(k.value, ast.Constant) and k.value.value is False) for k in c.keywords))
+                                       for c in ast.walk(ast.parse(src, mode="eval"))):
+            rep.violation(rid, f"get_matches path [{desc}] copy index", f"vacancy copy index comes from `{src}`: the position is wrapped into the cell before its cell "
+                          "number is taken, so every vacancy is reported in cell (0, 0, 0)", M.where(GM, loop))
         elif want != "vacancy" and attr_root(fn, ast.parse(src, mode="eval").body if src else None) != "factors":
             rep.violation(rid, f"get_matches path [{desc}] copy index", f"copy index comes from `{src}`, required the cell offset of the found image",
                           M.where(GM, loop))
